@@ -68,6 +68,7 @@ func (s *State) get(e *Emitter, key string, sort Sort) Term {
 func (s *State) set(key string, t Term) {
 	s.w[key] = t
 	s.g.touched[key] = t.Sort
+	s.g.touchedAll[key] = t.Sort
 }
 
 func (ep *Epoch) lookup(e *Emitter, g *Gen, key string, sort Sort) Term {
